@@ -395,9 +395,12 @@ class Scenario:
         self.toml = None          # None | dict(kind=..., path=..., lists={cat: [names]})
         self.contracts = True
         self.stale = False        # a report left by a previous run
+        self.toml_dir = ''        # directory (relative to the working directory) in which the configuration file lies
+        self.stray = False        # a file named Solstat.toml lies in the working directory although --toml is not passed
 
     def describe(self):
-        return {'flag_path': self.flag, 'toml': self.toml, 'contracts_dir_present': self.contracts, 'stale_report': self.stale}
+        return {'flag_path': self.flag, 'toml': self.toml, 'contracts_dir_present': self.contracts, 'stale_report': self.stale,
+                'toml_dir': self.toml_dir, 'stray_Solstat_toml_in_cwd': self.stray}
 
 
 def toml_text(t):
@@ -475,6 +478,16 @@ def scenarios(T, rng, n_random):
                 if flag == 'missing' and t is not None and t['kind'] != 'valid':
                     continue
                 add(flag, t, contracts, stale=(len(out) % 3 == 0))
+    # the configuration file lies in another directory: its `path` is still relative to the working directory
+    for flag in [None, 'pa']:
+        for t in tomls[1:4] + tomls[12:13]:
+            add(flag, t, True)
+            out[-1].toml_dir = 'conf'
+    # a file named Solstat.toml in the working directory is not a configuration unless --toml names it
+    for flag in [None, 'pa']:
+        for contracts in [True, False]:
+            add(flag, None, contracts)
+            out[-1].stray = True
     for _ in range(n_random):
         r = rng.random()
         t = {'kind': 'valid', 'path': rng.choice(['./tb', 'tb', '@ABS@/tb', 'tb/']),
@@ -483,7 +496,8 @@ def scenarios(T, rng, n_random):
     return out
 
 
-MARK = {'pa': 'Aflag', 'tb': 'Btoml', 'contracts': 'Cdefault', 'TB': 'Dupper', 'Src/Core': 'Emixed'}
+MARK = {'pa': 'Aflag', 'tb': 'Btoml', 'contracts': 'Cdefault', 'TB': 'Dupper', 'Src/Core': 'Emixed', 'conf/tb': 'Fbeside',
+        'conf/contracts': 'Gbeside'}
 STALE = 'STALE REPORT left by an earlier run\n'
 
 
@@ -495,7 +509,7 @@ def run_scenario(binpath, sc, files, root):
     for d, mark in MARK.items():
         if d == 'contracts' and not sc.contracts:
             continue
-        os.makedirs(os.path.join(wd, d))
+        os.makedirs(os.path.join(wd, d), exist_ok=True)
         for j, src in enumerate(files):
             open(os.path.join(wd, d, '%s_%d.sol' % (mark, j)), 'w', encoding='utf-8', newline='').write(src)
     args = [binpath]
@@ -504,9 +518,14 @@ def run_scenario(binpath, sc, files, root):
     elif sc.flag == 'missing':
         args += ['--path', './does_not_exist']
     if sc.toml is not None:
-        args += ['--toml', 'cfg.toml']
+        tp = os.path.join(sc.toml_dir, 'cfg.toml') if sc.toml_dir else 'cfg.toml'
+        args += ['--toml', tp]
         if sc.toml['kind'] != 'nofile':
-            open(os.path.join(wd, 'cfg.toml'), 'w', encoding='utf-8').write(toml_text(sc.toml).replace('@ABS@', wd))
+            os.makedirs(os.path.join(wd, sc.toml_dir), exist_ok=True)
+            open(os.path.join(wd, tp), 'w', encoding='utf-8').write(toml_text(sc.toml).replace('@ABS@', wd))
+    if sc.stray:
+        open(os.path.join(wd, 'Solstat.toml'), 'w', encoding='utf-8').write(
+            'path = "./tb"\noptimizations = ["sstore"]\nvulnerabilities = []\nqa = []\n')
     if sc.stale:
         open(os.path.join(wd, 'solstat_report.md'), 'w').write(STALE)
     env = dict(os.environ)
